@@ -1,6 +1,6 @@
 // Repro for finding decode_hex_odd_digit_dropped (C05): drop into a scratch copy of /repo as
 // pdf/tests/verif_hex_repro.rs and run
-//   CARGO_TARGET_DIR=/verif/.cache/native-target cargo test --offline -p pdf --test verif_hex_repro
+//   CARGO_TARGET_DIR=/tmp/hexcodec_target cargo test --offline -p pdf --test verif_hex_repro
 // ISO 32000-1 7.4.2: "If the filter encounters the EOD marker after reading an odd number of hexadecimal
 // digits, it shall behave as if a 0 (zero) followed the last digit."
 // Pinned tree: FAILS (the last digit is silently dropped). With findings/decode_hex_odd_digit_dropped_fix.diff: passes.
